@@ -1,5 +1,5 @@
 (* Extraction of the C06 model to OCaml (ExtrOcamlBasic + ExtrOcamlString only; nat stays unary). *)
 From Coq Require Import Extraction ExtrOcamlBasic ExtrOcamlString.
-From Cb Require Import C06.Model.
+From Cb Require Import C06.Model C06.Fixed.
 Extraction Language OCaml.
-Extraction "C06/c06_model.ml" mrun srun safe_prog shapes.
+Extraction "C06/c06_model.ml" mrun srun safe_prog shapes frun.
